@@ -12,7 +12,9 @@ import vlib, build
 from vlib import hx
 
 PROPS = "Props/Properties_C20.v"
-NAMES = {i: "v%d" % i for i in range(1, 10)}
+# identifiers that are prefixes of one another, declared longer-before-shorter (abc, ab) and shorter-before-longer
+# (ab, abcd; x1, x, x10); the identifier that is never declared (9) is a prefix of declared ones
+NAMES = {1: "abc", 2: "ab", 3: "abcd", 4: "x1", 5: "x", 6: "x10", 7: "abcde", 8: "x100", 9: "a"}
 INTS = [0, 1, -1, 2, 5, -5, 7, 100, 255, 2 ** 31, -(2 ** 31), 2 ** 62, 2 ** 63 - 1, -(2 ** 63) + 1]
 STRS = [b"", b"abc", b"ABC", b"xabcx", b"ab", b"Abc", b"abcabc", b"c", b"a b", b"\x01\xff", b'q"\\']
 CMPS = {"eq": "==", "ne": "!=", "lt": "<", "le": "<=", "gt": ">", "ge": ">="}
